@@ -5,6 +5,7 @@ CONSTANTS
   FullNode = TRUE
   Cap = 2
   Weaken = "gateStrict"
+  GapFix = FALSE
   Direct = FALSE
   Timeouts = FALSE
 PROPERTY NoRerun
